@@ -411,8 +411,6 @@ pub fn replay_collect<F>(work: F) -> Vec<(String, String)>
 where
     F: FnOnce(&Out) + Send + 'static,
 {
-    let mut rep = Report::new("replay", "", "");
-    let mut classes = FailureClasses::new(u64::MAX);
     let (tx, rx) = channel();
     let _h = std::thread::Builder::new().stack_size(8 << 20).spawn(move || {
         let out = Out(tx);
@@ -434,7 +432,6 @@ where
             Err(RecvTimeoutError::Disconnected) => break,
         }
     }
-    let _ = (&mut rep, &mut classes);
     fails
 }
 
